@@ -10,7 +10,7 @@ from mc.core import Fail, Outcome, Sub, run_subs
 
 PROPERTY = "C16"
 ASSUMPTIONS = [
-    "label domain: species labels start with a letter and contain no blank, '+', '>' or '|' (the text format is ambiguous otherwise); species labels and reaction ids are disjoint",
+    "label domain: species labels start with a letter and contain no blank, '+', '>' or '|' (the text format is ambiguous otherwise); species labels and reaction ids are disjoint when node ids are built without prefixes, and may coincide with the default prefixes or integer ids",
     "flag combinations that claim invertibility: bipartite export with include_stoich, include_edge_id_attr, include_mol, every marker pair (0,1) / (1,0) / (True,False) / ('sp','rx') / (2,3); strings with include_rule_suffix",
     "molecule labels include falsy identifiers (0, '') since assign_mol documents ints and strings as legitimate",
     "a registered species that occurs in no reaction: the statement promises the reactions, ids, rules, coefficients and molecule labels, not the species set; only those are required with such a species present (both include_isolated_species settings)",
@@ -113,6 +113,13 @@ def check(case):
             got = Counter(canon_rx(H3).values())
             if got != want_ms:
                 fails.append(Fail("strings", f"id={with_id},sort={srt}: {lines} -> {sorted(got.elements())}", str(sorted(want_ms.elements())), key_extra=f"{with_id},{srt}"))
+            elif with_id and srt and H3.species:
+                # the parsed network is edited in place, then the same lines are parsed again: the text decides, not the earlier object
+                H3.remove_species(sorted(H3.species)[0])
+                H3b = cv.rxns_to_hypergraph(lines)
+                n += 1
+                if Counter(canon_rx(H3b).values()) != want_ms:
+                    fails.append(Fail("strings_after_editing_parsed_network", f"{lines} -> {sorted(Counter(canon_rx(H3b).values()).elements())}", str(sorted(want_ms.elements()))))
     # ---- species graph (all reactions two-sided)
     if all(any(l) and any(r) for l, r in net):
         for inc_mol in (False, True):
@@ -125,6 +132,21 @@ def check(case):
                 fails.append(Fail("species_graph", f"mol={inc_mol}: {got}", str(w), key_extra=str(inc_mol)))
             elif inc_mol and dict(H4.species_to_mol) != want_mol:
                 fails.append(Fail("species_graph_mol", f"{dict(H4.species_to_mol)}", str(want_mol)))
+    # ---- a species label that is also a reaction id (two name spaces; the prefixed and the integer node ids keep them apart)
+    names2 = ["E1", "E2x", "Zq", "Yw"]
+    H8 = CRNHyperGraph()
+    for k, (l, r) in enumerate(net):
+        H8.add_rxn({names2[i]: cmap[c] for i, c in enumerate(l) if c}, {names2[i]: cmap[c] for i, c in enumerate(r) if c}, rule="q", edge_id=f"E{k + 1}")
+    for i, m in mols.items():
+        if names2[i] in H8.species:
+            H8.assign_mol(names2[i], m)
+    want8, mol8 = canon_rx(H8), dict(H8.species_to_mol)
+    for integer_ids in (False, True):
+        G = cv.hypergraph_to_bipartite(H8, integer_ids=integer_ids, include_stoich=True, include_edge_id_attr=True, include_mol=True)
+        H9 = cv.bipartite_to_hypergraph(G)
+        n += 1
+        if canon_rx(H9) != want8 or dict(H9.species_to_mol) != mol8:
+            fails.append(Fail("bipartite_label_equals_edge_id", f"int={integer_ids}: {canon_rx(H9)} labels {dict(H9.species_to_mol)}", f"{want8} labels {mol8}", key_extra=str(integer_ids)))
     # ---- a registered species that occurs in no reaction (left behind by remove_species(..., prune_orphans=False))
     H6 = H.copy()
     first_sp = sorted(H.species)[-1]
